@@ -35,6 +35,9 @@ import TorrentVerif.Model.Listing
     that is not a positive multiple of `BLOCK_SIZE` (Python goes on with
     `piece_length // BLOCK_SIZE` blocks per piece) are `badPieceLength`.
   * a negative `length` is `typeError`.
+  * `_is_parent` (telling the content from its parent when both carry the torrent's name): an
+    empty top-level name makes `os.path.exists(outer / "")` true, the model finds no entry of
+    that name; a `path` that is not a list is `typeError`.
 
   Tie to the code: driver command `recheckfull` (`Driver/G8.lean`) against the real
   `torrentfile.recheck.Checker` (stream of `iter_hashes`, `_result`, exception kind): own
@@ -70,14 +73,6 @@ def ContentArg.place (a : ContentArg) (name : Bytes) (payload : Disk) : Node :=
   match a.kind with
   | .root => payload
   | .parent => .dir [(name, payload)]
-
-/-- the side condition under which `find_root` resolves the content path to the payload: a
-    payload root is named like the torrent; a parent directory is NOT named like the torrent
-    (otherwise `find_root` takes the parent itself for the payload) -/
-def ContentArg.Resolves (a : ContentArg) (name : Bytes) : Prop :=
-  match a.kind with
-  | .root => a.argName = name
-  | .parent => a.argName ≠ name
 
 inductive Err
   | decodeError      -- `pyben.load` fails
@@ -151,13 +146,80 @@ open RF
 
 namespace Impl
 
+/-- `{item["path"][0] for item in info["files"] if item["path"]}` in `_is_parent` (as a list;
+    repetitions are removed when counting) -/
+def filesTops : List BVal → Except Err (List Bytes)
+  | [] => .ok []
+  | item :: rest => do
+    match ← sub item RF.kPath with
+    | .list [] => filesTops rest
+    | .list (.str s :: _) =>
+      let t ← filesTops rest
+      .ok (s :: t)
+    | _ => .error .typeError
+
+/-- `sum(os.path.exists(nd / top) for top in tops)` for the SET `tops` -/
+def countTops (nd : Node) (tops : List Bytes) : Nat :=
+  (tops.eraseDups.filter fun t => (child nd t).isSome).length
+
+/-- the described top-level entries as `_is_parent` collects them (`tops`): the first path
+    components of the `files` entries (v1 and hybrid; padding entries included), else the keys
+    of the file tree; `none` for a single-file torrent (`length`, or the tree `{name: file}`). -/
+def topsOf (info : Dict) (name : Bytes) : Except Err (Option (List Bytes)) :=
+  match dictGet info K.files with
+  | some (.list items) => do                              -- `if "files" in info`
+    let tops ← filesTops items
+    .ok (some tops)
+  | some _ => .error .typeError
+  | none =>
+    if dictHas info K.length then .ok none                -- `"length" in info or …`
+    else
+      match dictGet info K.fileTree with
+      | none => .ok (some [])                             -- `set({})`
+      | some (.dict tree) =>
+        if keys tree = [name] then                        -- `list(tree) == [self.name]`
+          match dictGet tree name with
+          | some (.dict leaf) =>
+            if dictHas leaf [] then .ok none              -- `"" in tree[self.name]`
+            else .ok (some (keys tree))
+          | some _ => .error .typeError
+          | none => .ok (some (keys tree))
+        else .ok (some (keys tree))
+      | some _ => .error .typeError
+
+/-- `Checker._is_parent(outer, inner)`: `outer` is a directory named like the torrent, `inner`
+    its entry that is also named like the torrent.  `true`: `inner` is the content and `outer`
+    only its parent.  A single-file torrent's content is a file; otherwise strictly more of
+    the described top-level entries must exist below `inner` than directly below `outer`. -/
+def isParent (info : Dict) (name : Bytes) (outer inner : Node) : Except Err Bool := do
+  match ← topsOf info name with
+  | none => .ok (isFile inner)
+  | some tops => .ok (decide (countTops outer tops < countTops inner tops))
+
+/-- the test in the `if root.name == self.name` branch of `find_root`:
+    `root.is_dir() and inner.exists() and self._is_parent(root, inner)` — `true` when the
+    directory `nd`, named like the torrent, has an entry named like the torrent that
+    `_is_parent` takes for the content -/
+def descends (info : Dict) (name : Bytes) (nd : Node) : Except Err Bool :=
+  match nd with
+  | .file _ => .ok false                                  -- `root.is_dir()`
+  | .dir _ =>
+    match child nd name with
+    | none => .ok false                                   -- `inner.exists()`
+    | some inner => isParent info name nd inner
+
 /-- `Checker.find_root(path)`: `here` is what is at `path` (`none`: it does not exist), `argName`
     is `Path(path).name`. -/
-def findRoot (name argName : Bytes) (here : Option Node) : Except Err Node :=
+def findRoot (info : Dict) (name argName : Bytes) (here : Option Node) : Except Err Node :=
   match here with
   | none => .error .notFound                        -- `if not os.path.exists(path)`
   | some nd =>
-    if argName = name then .ok nd                   -- `if root.name == self.name`
+    if argName = name then do                       -- `if root.name == self.name`
+      if ← descends info name nd then
+        match child nd name with
+        | some inner => .ok inner                   -- `return inner`
+        | none => .ok nd
+      else .ok nd
     else
       match nd with
       | .file _ => .error .notADirectory            -- `os.listdir(root)`
@@ -165,6 +227,20 @@ def findRoot (name argName : Bytes) (here : Option Node) : Except Err Node :=
         match child nd name with
         | some c => .ok c                           -- `root / self.name`
         | none => .error .notFound
+
+/-- The side condition under which `find_root` resolves the content argument to the payload.
+    Payload root: it is named like the torrent, and `find_root` does not go on into an entry
+    of the payload that is again named like the torrent (`descends … = false`: the payload is a
+    file, or has no such entry, or `_is_parent` finds no more of the described top-level
+    entries in there than in the payload itself).
+    Parent directory (holding just the payload): it is not named like the torrent, or
+    `_is_parent` tells the payload from it (more described top-level entries below the
+    payload than directly in the parent; a single-file payload is a file). -/
+def _root_.TorrentVerif.RF.ContentArg.Resolves (a : ContentArg) (info : Dict) (name : Bytes)
+    (disk : Disk) : Prop :=
+  match a.kind with
+  | .root => a.argName = name ∧ descends info name disk = .ok false
+  | .parent => a.argName ≠ name ∨ isParent info name (.dir [(name, disk)]) disk = .ok true
 
 /-- `meta_version` as `Checker.__init__` determines it -/
 def metaVersion (info : Dict) : Nat :=
@@ -323,7 +399,7 @@ def recheckMeta (H1 H : Bytes → Bytes) (B hs : Nat) (mf : BVal) (argName : Byt
     let name ← (← sub infoV K.name) |> str              -- `self.info["name"]`
     let plV ← sub infoV K.pieceLength                   -- `self.info["piece length"]`
     let version := metaVersion info
-    let root ← findRoot name argName here
+    let root ← findRoot info name argName here
     let (recs, total) ← checkPaths info name version (isFile root)
     if version = 1 then                                 -- `FeedChecker`
       let recorded ← (← sub infoV K.pieces) |> str
@@ -346,6 +422,12 @@ def recheckMeta (H1 H : Bytes → Bytes) (B hs : Nat) (mf : BVal) (argName : Byt
 def nameOf (mf : BVal) : Bytes :=
   match (mf.get? K.info).bind (·.get? K.name) with
   | some (.str s) => s
+  | _ => []
+
+/-- `meta["info"]` of a decoded metafile (empty when there is none) -/
+def infoOf (mf : BVal) : Dict :=
+  match mf.get? K.info with
+  | some (.dict d) => d
   | _ => []
 
 /-- the whole `Checker`: metafile bytes, content argument, payload on disk (stored under the
